@@ -35,7 +35,7 @@ for f in sorted(glob.glob("/verif/refactors/*/meta.json")):
     m = json.load(open(f))
     d = os.path.dirname(f)
     ok = subprocess.run(["git", "-C", "/repo", "apply", "--check", d + "/patch.diff"], capture_output=True).returncode == 0
-    m["applies_to"] = {"written_and_run_against": "4594d2d (the repaired tree before the last two fix: commits)" if m["run_in_batch"] not in ("b13", "b14") else head,
+    m["applies_to"] = {"written_and_run_against": "4594d2d (the repaired tree before the last two fix: commits)" if int(m["run_in_batch"][1:]) < 13 else head,
                        "repo_head": head, "git_apply_check_on_repo_head": ok,
-                       "note": "the last two fix: commits (4658863, bc19a71) rewrote parts of struct.go; refactors of those lines apply to 4594d2d only (two were rebased and run again, batches b13/b14)"}
+                       "note": "the last two fix: commits (4658863, bc19a71) rewrote parts of struct.go; refactors of those lines apply to 4594d2d only (those eleven were rebased and run again on the final tree, batches b13..b23)"}
     json.dump(m, open(f, "w"), indent=1)
